@@ -14,6 +14,7 @@ var (
 	LockHandler  func(mu sync.Locker)
 	RLockHandler func(mu *sync.RWMutex)
 	YieldHandler func(site string)
+	OnceHandler  func(key any, enter bool)
 	// Deterministic makes SortHashes sort (map-iteration order would
 	// otherwise leak into the order of disk operations and break replay).
 	Deterministic bool
@@ -46,5 +47,21 @@ func Yield(site string) {
 func SortHashes(hs []plumbing.Hash) {
 	if Deterministic {
 		sort.Slice(hs, func(i, j int) bool { return hs[i].Compare(hs[j].Bytes()) < 0 })
+	}
+}
+
+// OnceEnter / OnceExit bracket a sync.Once (or similar) whose function does
+// I/O: a second caller blocks inside the Once until the first is done, which
+// a simulation has to know about before it lets the second caller go.
+func OnceEnter(key any) {
+	if h := OnceHandler; h != nil {
+		h(key, true)
+	}
+}
+
+// OnceExit ends the bracket opened by OnceEnter.
+func OnceExit(key any) {
+	if h := OnceHandler; h != nil {
+		h(key, false)
 	}
 }
